@@ -1437,7 +1437,7 @@ trait RecordD {
                 lemma_chain_bounds(bb, s);
                 if bb.len() > 0 && c4(bb, s) < bb.len() && self.clean() { lemma_group_lift(ff, a, bb, s); }
             }
-//@after /Err\(e\) => \{/ nth=0
+//@after /Err\(e\) => \{/ nth=0 optional=1
                         proof {
                             if self.buf_reader.cap() > cap_before {
                                 grow_at = k0;
